@@ -198,45 +198,232 @@ func runText(c TextCase, r *runlog.R) error {
 
 const shortAlphabet = "[]{},:\"\\/an10-.e "
 
-func enumShort(yield func(TextCase) bool) {
-	maxLen := runlog.Pick(6, 7)
-	k := len(shortAlphabet)
-	buf := make([]byte, 0, maxLen)
-	idx := make([]int, maxLen)
-	for n := 1; n <= maxLen; n++ {
-		for i := 0; i < n; i++ {
-			idx[i] = 0
+// viablePrefix reports whether some continuation can turn b into a JSON text.
+// It only cuts the search (a prefix automaton of the RFC 8259 grammar); what is
+// a JSON text is decided by encoding/json. It must never say false for a
+// prefix of a JSON text: TestEnumSelfCheck compares the pruned with the
+// unpruned enumeration.
+func viablePrefix(b []byte) bool {
+	const (
+		sValue = iota
+		sValueOrEnd
+		sKeyOrEnd
+		sKey
+		sColon
+		sAfter
+		sStr
+		sStrEsc
+		sStrU
+		sNeg
+		sZero
+		sInt
+		sDot
+		sFrac
+		sE
+		sESign
+		sExp
+		sLit
+	)
+	var stack []byte
+	st, isKey, lit, ucount := sValue, false, "", 0
+	digit := func(c byte) bool { return c >= '0' && c <= '9' }
+	for i := 0; i < len(b); i++ {
+		c := b[i]
+	again:
+		switch st {
+		case sValue, sValueOrEnd:
+			switch {
+			case isJSONSpace(c):
+			case c == '[':
+				stack, st = append(stack, c), sValueOrEnd
+			case c == '{':
+				stack, st = append(stack, c), sKeyOrEnd
+			case c == ']' && st == sValueOrEnd:
+				stack, st = stack[:len(stack)-1], sAfter
+			case c == '"':
+				st, isKey = sStr, false
+			case c == '-':
+				st = sNeg
+			case c == '0':
+				st = sZero
+			case digit(c):
+				st = sInt
+			case c == 't':
+				st, lit = sLit, "rue"
+			case c == 'f':
+				st, lit = sLit, "alse"
+			case c == 'n':
+				st, lit = sLit, "ull"
+			default:
+				return false
+			}
+		case sKeyOrEnd, sKey:
+			switch {
+			case isJSONSpace(c):
+			case c == '"':
+				st, isKey = sStr, true
+			case c == '}' && st == sKeyOrEnd:
+				stack, st = stack[:len(stack)-1], sAfter
+			default:
+				return false
+			}
+		case sColon:
+			switch {
+			case isJSONSpace(c):
+			case c == ':':
+				st = sValue
+			default:
+				return false
+			}
+		case sAfter:
+			switch {
+			case isJSONSpace(c):
+			case len(stack) == 0:
+				return false
+			case c == ',' && stack[len(stack)-1] == '[':
+				st = sValue
+			case c == ',' && stack[len(stack)-1] == '{':
+				st = sKey
+			case c == ']' && stack[len(stack)-1] == '[', c == '}' && stack[len(stack)-1] == '{':
+				stack = stack[:len(stack)-1]
+			default:
+				return false
+			}
+		case sStr:
+			switch {
+			case c == '"' && isKey:
+				st = sColon
+			case c == '"':
+				st = sAfter
+			case c == '\\':
+				st = sStrEsc
+			case c < 0x20:
+				return false
+			}
+		case sStrEsc:
+			switch {
+			case strings.IndexByte("\"\\/bfnrt", c) >= 0:
+				st = sStr
+			case c == 'u':
+				st, ucount = sStrU, 0
+			default:
+				return false
+			}
+		case sStrU:
+			if !digit(c) && !(c >= 'a' && c <= 'f') && !(c >= 'A' && c <= 'F') {
+				return false
+			}
+			if ucount++; ucount == 4 {
+				st = sStr
+			}
+		case sNeg:
+			switch {
+			case c == '0':
+				st = sZero
+			case digit(c):
+				st = sInt
+			default:
+				return false
+			}
+		case sZero, sInt, sFrac, sExp:
+			switch {
+			case digit(c) && st != sZero:
+			case c == '.' && (st == sZero || st == sInt):
+				st = sDot
+			case (c == 'e' || c == 'E') && st != sExp:
+				st = sE
+			default:
+				st = sAfter // the number ended before c
+				goto again
+			}
+		case sDot:
+			if !digit(c) {
+				return false
+			}
+			st = sFrac
+		case sE:
+			switch {
+			case c == '+' || c == '-':
+				st = sESign
+			case digit(c):
+				st = sExp
+			default:
+				return false
+			}
+		case sESign:
+			if !digit(c) {
+				return false
+			}
+			st = sExp
+		case sLit:
+			if c != lit[0] {
+				return false
+			}
+			if lit = lit[1:]; lit == "" {
+				st = sAfter
+			}
 		}
-		buf = buf[:n]
-		for {
-			for i := 0; i < n; i++ {
-				buf[i] = shortAlphabet[idx[i]]
+	}
+	return true
+}
+
+// enumTexts visits, in lexicographic order of symbol indices, every text of
+// length 1..maxLen over the alphabet that encoding/json accepts. Prefixes that
+// no continuation can turn into JSON are cut off (prune=false visits all
+// |alphabet|^n texts instead; TestEnumSelfCheck compares the two).
+func enumTexts(alphabet string, maxLen int, prune bool, yield func(string) bool) {
+	buf := make([]byte, 0, maxLen)
+	var rec func() bool
+	rec = func() bool {
+		for i := 0; i < len(alphabet); i++ {
+			buf = append(buf, alphabet[i])
+			valid, more := json.Valid(buf), true
+			if prune && !valid {
+				more = viablePrefix(buf)
 			}
-			if json.Valid(buf) {
-				if !yield(TextCase{Text: string(buf)}) {
-					return
-				}
+			if valid && !yield(string(buf)) {
+				return false
 			}
-			// odometer
-			p := n - 1
-			for p >= 0 {
-				idx[p]++
-				if idx[p] < k {
-					break
-				}
-				idx[p] = 0
-				p--
+			if more && len(buf) < maxLen && !rec() {
+				return false
 			}
-			if p < 0 {
-				break
-			}
+			buf = buf[:len(buf)-1]
+		}
+		return true
+	}
+	rec()
+}
+
+func enumShort(yield func(TextCase) bool) {
+	enumTexts(shortAlphabet, runlog.Pick(6, 7), true, func(s string) bool { return yield(TextCase{Text: s}) })
+}
+
+// TestEnumSelfCheck guards the pruning: up to length 4 the pruned enumeration
+// must find exactly the texts the unpruned one finds (over a wider alphabet
+// than the sub-check's, so that literals and \\u escapes are covered too).
+func TestEnumSelfCheck(t *testing.T) {
+	if runlog.Env().Replay != "" {
+		t.Skip("replay mode")
+	}
+	var a, b []string
+	const wide = shortAlphabet + "truflsE+\t"
+	enumTexts(wide, 4, true, func(s string) bool { a = append(a, s); return true })
+	enumTexts(wide, 4, false, func(s string) bool { b = append(b, s); return true })
+	enumTexts(shortAlphabet, 5, true, func(s string) bool { a = append(a, s); return true })
+	enumTexts(shortAlphabet, 5, false, func(s string) bool { b = append(b, s); return true })
+	if len(a) != len(b) {
+		t.Fatalf("harness: pruned enumeration found %d texts, unpruned %d", len(a), len(b))
+	}
+	for i := range a {
+		if a[i] != b[i] {
+			t.Fatalf("harness: enumerations differ at %d: %q vs %q", i, a[i], b[i])
 		}
 	}
 }
 
 var subShort = runlog.Register(&runlog.Sub[TextCase]{
 	Name: "short-texts",
-	Rule: "every text of length <= 6 (quick) / 7 (thorough) over the 17 symbols `[ ] { } , : \" \\ / a n 1 0 - . e space` that encoding/json accepts as a JSON value (the enumeration visits all 17^n texts and keeps the valid ones); parse.Value must accept it and return the data encoding/json decodes (integers exact, other numbers as nearest float64; texts with duplicate keys or numbers beyond float64 are discarded). Non-trivial: whitespace after a string/array/object value, or an escape sequence, or nesting >= 2.",
+	Rule: "every text of length <= 6 (quick) / 7 (thorough) over the 17 symbols `[ ] { } , : \" \\ / a n 1 0 - . e space` that encoding/json accepts as a JSON value (depth-first over all 17^n texts, cutting prefixes that no continuation can complete; a self-check compares with the unpruned enumeration up to length 5); parse.Value must accept it and return the data encoding/json decodes (integers exact, other numbers as nearest float64; texts with duplicate keys or numbers beyond float64 are discarded). Non-trivial: whitespace after a string/array/object value, or an escape sequence, or nesting >= 2.",
 	Enum: enumShort,
 	Run:  runText,
 })
